@@ -372,8 +372,30 @@ func (w *World) Origin(f *Fn, e ast.Expr) ast.Expr {
 
 // isCallTo: e is a call whose resolved callee is obj.
 func (w *World) isCallTo(e ast.Expr, obj types.Object) bool {
-	c, ok := unparen(e).(*ast.CallExpr)
-	return ok && obj != nil && w.Callee(c) == obj
+	if obj == nil || e == nil {
+		return false
+	}
+	if c, ok := unparen(e).(*ast.CallExpr); ok && w.Callee(c) == obj {
+		return true
+	}
+	// through a single-definition local (`x := f(); … x …`) or a conversion
+	if e.Pos().IsValid() {
+		if c, ok := w.from(e).(*ast.CallExpr); ok && w.Callee(c) == obj {
+			return true
+		}
+	}
+	return false
+}
+
+// fieldFrom: the field an expression's value comes from, looking through single-definition locals.
+func (w *World) fieldFrom(e ast.Expr) *types.Var {
+	if v := w.fieldOf(e); v != nil {
+		return v
+	}
+	if e != nil && e.Pos().IsValid() {
+		return w.fieldOf(w.from(e))
+	}
+	return nil
 }
 
 // mentions: expression contains a use of obj (field or variable or func).
@@ -396,4 +418,81 @@ func (w *World) mentions(e ast.Node, obj types.Object) bool {
 		return true
 	})
 	return found
+}
+
+// fnOf returns the function body (declaration or literal) that contains node n.
+func (w *World) fnOf(n ast.Node) *Fn {
+	for p := n; p != nil; p = w.parentOf(p) {
+		switch x := p.(type) {
+		case *ast.FuncLit:
+			return w.ByLit[x]
+		case *ast.FuncDecl:
+			if w.declIndex == nil {
+				w.declIndex = map[*ast.FuncDecl]*Fn{}
+				for _, f := range w.Fns {
+					if f.Decl != nil {
+						w.declIndex[f.Decl] = f
+					}
+				}
+			}
+			return w.declIndex[x]
+		}
+	}
+	return nil
+}
+
+// from follows parentheses, conversions and single-definition locals of the enclosing function.
+func (w *World) from(e ast.Expr) ast.Expr {
+	if f := w.fnOf(e); f != nil {
+		return w.Origin(f, e)
+	}
+	return unparen(e)
+}
+
+// cmpRoles: the operator asserted (given that cond evaluates to val) between the operand
+// satisfying isA and the operand satisfying isB, oriented as "A op B". Operands are looked at
+// through single-definition locals.
+func (w *World) cmpRoles(cond ast.Expr, val bool, isA, isB func(ast.Expr) bool) (token.Token, bool) {
+	be, ok := unparen(cond).(*ast.BinaryExpr)
+	if !ok || negOp(be.Op) == token.ILLEGAL {
+		return token.ILLEGAL, false
+	}
+	op := be.Op
+	if !val {
+		op = negOp(op)
+	}
+	x, y := w.from(be.X), w.from(be.Y)
+	match := func(p func(ast.Expr) bool, raw, org ast.Expr) bool { return p(unparen(raw)) || p(org) }
+	if match(isA, be.X, x) && match(isB, be.Y, y) {
+		return op, true
+	}
+	if match(isA, be.Y, y) && match(isB, be.X, x) {
+		return swapOp(op), true
+	}
+	return token.ILLEGAL, false
+}
+
+// guardRel searches a guard set for a comparison between A and B and returns it oriented "A op B".
+func (w *World) guardRel(gs []Guard, isA, isB func(ast.Expr) bool, skipImplicit bool) (token.Token, *Guard) {
+	for i := range gs {
+		if skipImplicit && gs[i].Implicit {
+			continue
+		}
+		if op, ok := w.cmpRoles(gs[i].Cond, gs[i].Val, isA, isB); ok {
+			return op, &gs[i]
+		}
+	}
+	return token.ILLEGAL, nil
+}
+
+func (w *World) isField(f *types.Var) func(ast.Expr) bool {
+	return func(e ast.Expr) bool { return w.fieldOf(e) == f }
+}
+
+func (w *World) isConst(v int64) func(ast.Expr) bool {
+	return func(e ast.Expr) bool { c, ok := w.constInt(e); return ok && c == v }
+}
+
+func (w *World) isCallOf(obj types.Object) func(ast.Expr) bool {
+	return func(e ast.Expr) bool { c, ok := unparen(e).(*ast.CallExpr); return ok && w.Callee(c) == obj }
 }
